@@ -965,7 +965,9 @@ func (s *sharedEntryAttributes) validateRange(resultChan chan<- *types.Validatio
 // validateLeafListMinMaxAttributes validates the Min-, and Max-Elements attribute of the Entry if it is a Leaflists.
 func (s *sharedEntryAttributes) validateLeafListMinMaxAttributes(resultChan chan<- *types.ValidationResultEntry) {
 	if schema := s.schema.GetLeaflist(); schema != nil {
-		if schema.MinElements > 0 {
+		// max-elements is the maximum uint64 value if it is not defined, so this is effectively always true.
+		// It must not depend on min-elements being defined.
+		if schema.MinElements > 0 || schema.MaxElements > 0 {
 			if lv := s.leafVariants.GetHighestPrecedence(false, true); lv != nil {
 				tv, err := lv.Update.Value()
 				if err != nil {
@@ -977,7 +979,7 @@ func (s *sharedEntryAttributes) validateLeafListMinMaxAttributes(resultChan chan
 						resultChan <- types.NewValidationResultEntry(lv.Owner(), fmt.Errorf("leaflist %s defines %d min-elements but only %d elements are present", s.Path().String(), schema.MinElements, len(val.GetElement())), types.ValidationResultEntryTypeError)
 					}
 					// check maxelements if set
-					if len(val.GetElement()) > int(schema.GetMaxElements()) {
+					if uint64(len(val.GetElement())) > schema.GetMaxElements() {
 						resultChan <- types.NewValidationResultEntry(lv.Owner(), fmt.Errorf("leaflist %s defines %d max-elements but %d elements are present", s.Path().String(), schema.GetMaxElements(), len(val.GetElement())), types.ValidationResultEntryTypeError)
 					}
 				}
